@@ -15,7 +15,10 @@ Rule == [ls |-> [cat |-> <<99>>, prod |-> <<119,105,110,100,111,119,115>>, svc |
                      [field |-> fD, vals |-> <<VNum(<<5, 1>>)>>, applied |-> <<>>],
                      [field |-> fG, vals |-> <<VFieldRef(fH, 0, 0)>>, applied |-> <<>>]>>,
          fields |-> <<[name |-> fB, applied |-> <<t_ren>>], [name |-> fE, applied |-> <<>>]>>,
-         applied |-> <<t_st, t_ren>>, state |-> <<(<<(<<107>>), (<<118>>)>>)>>]
+         applied |-> <<t_st, t_ren>>, state |-> <<(<<(<<107>>), (<<118>>)>>)>>,
+         attrs |-> <<[name |-> <<115,101,118,101,114,105,116,121,95,115,99,111,114,101>>, kind |-> "int", n |-> 5, s |-> <<>>],
+                     [name |-> <<108,101,118,101,108>>, kind |-> "level", n |-> 4, s |-> <<>>],
+                     [name |-> <<97,117,116,104,111,114>>, kind |-> "str", n |-> 0, s |-> <<109,101>>]>>]
 \* ---- recorded deviation ------------------------------------------------------------------------
 \* Field-name-level "processing_item_applied" on a DETECTION ITEM's field: field mapping
 \* transformations check the field conditions twice - first against the items applied to the
